@@ -105,6 +105,8 @@ use syn::{parse_macro_input, DeriveInput};
 mod feature;
 mod generator;
 mod parser;
+#[cfg(feature = "verif_hooks")]
+mod verif;
 
 /// Derive Macro for enums
 ///
@@ -370,8 +372,17 @@ mod parser;
 #[proc_macro_error]
 #[proc_macro_derive(EnumTools, attributes(enum_tools))]
 pub fn enum_tools(tokens: proc_macro::TokenStream) -> proc_macro::TokenStream {
+    #[cfg(feature = "verif_hooks")]
+    verif::begin(&tokens.to_string());
     let input = parse_macro_input!(tokens as DeriveInput);
     let (derive, features) = generator::Derive::parse(input);
 
+    #[cfg(feature = "verif_hooks")]
+    {
+        let output = derive.generate(features);
+        verif::end(&output.to_string());
+        return output.into();
+    }
+    #[cfg(not(feature = "verif_hooks"))]
     derive.generate(features).into()
 }
